@@ -49,6 +49,20 @@ CLAIMS = {
                 'clients observe with and without a monitor; monitor match-rule evaluation (C07).',
         'design': 'DESIGN.md section 3, C18',
     },
+    'C05': {
+        'technique': 'static analysis: path-sensitive typestate (recipient origin, stale-pointer use), '
+                     'must-pass-through dataflow (gate, fd capability, stamps), loop membership via back edges, '
+                     'queue-polarity table over all list operations on each queue field',
+        'text': 'Decides that the recipient routed to is NULL or the primary owner (list head) of the service '
+                'looked up from the re-fetched destination; that there is exactly one staging to the addressee, '
+                'outside loops, behind the policy gate and fd-capability test; that the addressee is stamped and a '
+                'broadcast recipient is appended only on the fresh-stamp edge of a matching rule; that no routing '
+                'sink follows a set error and error replies answer the original serial; and that all five message '
+                'queues are filled at one end and drained from the other.',
+        'note': NOT_DECIDED_COMMON + 'Not decided: delivery under races with ownership change; integrity of body '
+                'and other fields in transit (C12); match evaluation (C07).',
+        'design': 'DESIGN.md section 3, C05',
+    },
 }
 
 NOT_APPLICABLE = {
